@@ -1,3 +1,340 @@
-(* WFDef — reserved for the proof agent owning this topic. *)
+(* WFDef — the well-formedness invariant of fox's method trees (C02/C07).
+
+   A registered pattern is scanned by a small automaton [vstep] that is a
+   NECESSARY condition of fox's parseRoute (fox.go:662-850): it only keeps what
+   the tree proofs need:
+     - the pattern contains a '/' (hostname part = everything before the first);
+     - '{' opens a name, '*' must be followed by '{' and is illegal in the hostname;
+     - a name contains no '/', '*', '{' (and no '.' in the hostname) and is closed
+       by '}', which is followed by '/', by '.' (hostname only) or by nothing.
+   [valid_patternb] is this automaton; the full validator is property C10.
+
+   WF_node pre n : n is a well-formed non-root node whose key starts after the
+   bytes [pre] (the concatenation of the keys from the method root). *)
 From FoxBase Require Import Bytes.
 From FoxRoute Require Import Node Lookup Spec Tree.
+From Coq Require Import Sorting.Sorted Permutation.
+Open Scope char_scope.
+
+(* ---------- induction on nodes ---------- *)
+Lemma node_ind2 (P : node -> Prop) :
+  (forall k r ch, Forall P ch -> P (Node k r ch)) -> forall n, P n.
+Proof.
+  intros H. fix IH 1. intros [k r ch]. apply H.
+  induction ch as [|c ch IHch]; constructor; [apply IH|exact IHch].
+Qed.
+
+(* ---------- the pattern automaton ---------- *)
+Inductive vst := VDef | VStar | VName | VAfter | VBad.
+
+(* state = (no '/' seen so far, lexical state) *)
+Definition vstep (s : bool * vst) (c : ascii) : bool * vst :=
+  let (h, st) := s in
+  match st with
+  | VDef => if Ascii.eqb c "/" then (false, VDef)
+            else if Ascii.eqb c "{" then (h, VName)
+            else if Ascii.eqb c "*" then (if h then (h, VBad) else (h, VStar))
+            else (h, VDef)
+  | VStar => if Ascii.eqb c "{" then (h, VName) else (h, VBad)
+  | VName => if Ascii.eqb c "}" then (h, VAfter)
+             else if Ascii.eqb c "/" || Ascii.eqb c "*" || Ascii.eqb c "{" || (h && Ascii.eqb c ".")
+                  then (h, VBad) else (h, VName)
+  | VAfter => if Ascii.eqb c "/" then (false, VDef)
+              else if h && Ascii.eqb c "." then (h, VDef)
+              else (h, VBad)
+  | VBad => (h, VBad)
+  end.
+Definition vinit : bool * vst := (true, VDef).
+Definition vrun (u : bytes) : bool * vst := fold_left vstep u vinit.
+Definition vclosed (s : bool * vst) : bool := match snd s with VDef | VAfter => true | _ => false end.
+
+Definition hostpart (u : bytes) : bool := fst (vrun u).      (* u is a legal prefix without '/' *)
+Definition closed (u : bytes) : bool := vclosed (vrun u).    (* u is a legal prefix that does not end inside "{..}" / "*{..}" nor on '*' *)
+
+Definition valid_patternb (p : bytes) : bool := closed p && negb (hostpart p).
+
+Fixpoint count_wildcards (ts : list token) : nat :=
+  match ts with
+  | [] => 0
+  | TStatic _ :: r => count_wildcards r
+  | _ :: r => S (count_wildcards r)
+  end.
+
+(* what NewRoute hands to the tree for a pattern that passed validation *)
+Definition valid_rinfo (ri : rinfo) : Prop :=
+  valid_patternb (rpat (ri_route ri)) = true /\
+  index_byte (rpat (ri_route ri)) "/" = Some (ri_hostsplit ri).
+Definition valid_rinfo_full (ri : rinfo) : Prop :=
+  valid_rinfo ri /\ ri_pslen ri = count_wildcards (tokenize (rpat (ri_route ri))).
+
+(* ---------- routes of a tree (structural version of Tree.routes_of_node) ---------- *)
+Fixpoint rlist (n : node) : list route :=
+  match n with
+  | Node _ r ch => (match r with Some rt => [rt] | None => [] end) ++ flat_map rlist ch
+  end.
+
+Definition routes_of_root (root : node) : list (bytes * bytes * N) :=
+  map (fun r => (nkey root, rpat r, rid r)) (rlist root).
+Definition routes_of_txn (t : txn) : list (bytes * bytes * N) := flat_map routes_of_root (t_roots t).
+
+(* ---------- boolean checker ---------- *)
+Definition fb (n : node) : nat := match nkey n with c :: _ => nat_of_ascii c | [] => 0 end.
+
+Fixpoint sorted_fbb (l : list node) : bool :=
+  match l with
+  | [] => true
+  | x :: r => forallb (fun y => Nat.ltb (fb x) (fb y)) r && sorted_fbb r
+  end.
+
+Fixpoint wf_nodeb (pre : bytes) (n : node) : bool :=
+  match n with
+  | Node k r ch =>
+    let pre' := pre ++ k in
+    negb (Tree.is_nil k)
+    && closed pre'
+    && (negb (hostpart pre) || starts_with "/" k || hostpart pre')
+    && sorted_fbb ch
+    && match r with
+       | Some rt => bytes_eqb (rpat rt) pre' && negb (hostpart pre')
+       | None => Nat.leb 2 (List.length ch)
+                 || (hostpart pre' && match ch with [g] => starts_with "/" (nkey g) | _ => false end)
+       end
+    && forallb (wf_nodeb pre') ch
+  end.
+
+Definition wf_rootb (root : node) : bool :=
+  match nroute root with None => true | Some _ => false end
+  && sorted_fbb (nchildren root) && forallb (wf_nodeb []) (nchildren root).
+
+Fixpoint nodup_bytesb (l : list bytes) : bool :=
+  match l with
+  | [] => true
+  | x :: r => negb (existsb (bytes_eqb x) r) && nodup_bytesb r
+  end.
+
+Definition wf_rootsb (rs : list node) : bool :=
+  list_eqb bytes_eqb (map nkey (firstn 4 rs)) common_verbs
+  && forallb (fun c => negb (Tree.is_nil (nchildren c))) (skipn 4 rs)
+  && nodup_bytesb (map nkey rs)
+  && forallb wf_rootb rs.
+
+Definition wf_txnb (t : txn) : bool :=
+  wf_rootsb (t_roots t) && Z.eqb (t_size t) (Z.of_nat (List.length (routes_of_txn t))).
+
+(* ---------- the invariant as a proposition ---------- *)
+Definition sorted_fb (l : list node) : Prop := StronglySorted (fun a b => fb a < fb b) l.
+
+Inductive WF_node : bytes -> node -> Prop :=
+| WF_intro pre k r ch :
+    k <> [] ->                                              (* keys are non-empty *)
+    closed (pre ++ k) = true ->                             (* no key ends inside a wildcard: wildcards are never split *)
+    (hostpart pre = true -> starts_with "/" k = false ->
+       hostpart (pre ++ k) = true) ->                       (* a hostname node holds no '/': host and path live in different nodes *)
+    sorted_fb ch ->                                         (* children strictly increasing in their first byte *)
+    (forall rt, r = Some rt ->
+       rpat rt = pre ++ k /\ hostpart (pre ++ k) = false) -> (* leaf: pattern = concatenation of the keys, and it is a valid pattern *)
+    (r = None -> 2 <= List.length ch \/
+       (hostpart (pre ++ k) = true /\
+        exists g, ch = [g] /\ starts_with "/" (nkey g) = true)) -> (* inner node: >= 2 children, or host->path split node *)
+    Forall (WF_node (pre ++ k)) ch ->
+    WF_node pre (Node k r ch).
+
+Definition WF_root (root : node) : Prop :=
+  nroute root = None /\ sorted_fb (nchildren root) /\ Forall (WF_node []) (nchildren root).
+
+Definition WF_roots (rs : list node) : Prop :=
+  map nkey (firstn 4 rs) = common_verbs /\                  (* GET POST PUT DELETE, in that order *)
+  Forall (fun c => nchildren c <> []) (skipn 4 rs) /\       (* custom method roots are never empty *)
+  NoDup (map nkey rs) /\                                    (* one root per method *)
+  Forall WF_root rs.
+
+Definition WF_txn (t : txn) : Prop :=
+  WF_roots (t_roots t) /\ t_size t = Z.of_nat (List.length (routes_of_txn t)).
+
+(* ---------- reflection ---------- *)
+Lemma sorted_fbb_spec l : sorted_fbb l = true <-> sorted_fb l.
+Proof.
+  unfold sorted_fb. induction l as [|x r IH]; simpl.
+  - split; [constructor|reflexivity].
+  - rewrite andb_true_iff, IH, forallb_forall. split.
+    + intros [H1 H2]. constructor; [exact H2|]. apply Forall_forall. intros y Hy.
+      apply Nat.ltb_lt, H1, Hy.
+    + intros H. inversion H as [|? ? H2 H3]; subst. split; [|exact H2].
+      intros y Hy. apply Nat.ltb_lt. rewrite Forall_forall in H3. auto.
+Qed.
+
+Lemma is_nil_false {A} (l : list A) : Tree.is_nil l = false <-> l <> [].
+Proof. destruct l; simpl; split; congruence. Qed.
+
+Lemma wf_nodeb_spec : forall n pre, wf_nodeb pre n = true <-> WF_node pre n.
+Proof.
+  induction n as [k r ch IH] using node_ind2. intros pre.
+  cbn [wf_nodeb]. rewrite !andb_true_iff, negb_true_iff, is_nil_false, sorted_fbb_spec, forallb_forall.
+  split.
+  - intros [[[[[H1 H2] H3] H4] H5] H6]. constructor; auto.
+    + intros Hh Hs. rewrite Hh, Hs in H3. simpl in H3. exact H3.
+    + intros rt ->. apply andb_true_iff in H5. destruct H5 as [Ha Hb].
+      apply bytes_eqb_eq in Ha. apply negb_true_iff in Hb. auto.
+    + intros ->. apply orb_true_iff in H5. destruct H5 as [Ha|Ha].
+      * left. apply Nat.leb_le. exact Ha.
+      * right. apply andb_true_iff in Ha. destruct Ha as [Ha Hb]. split; [exact Ha|].
+        destruct ch as [|g [|g' ch']]; try discriminate. exists g. auto.
+    + rewrite Forall_forall in *. intros c Hc. apply IH; auto.
+  - intros H. inversion H as [? ? ? ? H1 H2 H3 H4 H5 H6 H7]; subst.
+    repeat split; auto.
+    + destruct (hostpart pre) eqn:Hh; [|reflexivity]. simpl.
+      destruct (starts_with "/" k) eqn:Hs; [reflexivity|]. simpl. auto.
+    + destruct r as [rt|].
+      * destruct (H5 rt eq_refl) as [Ha Hb]. rewrite Ha, bytes_eqb_refl, Hb. reflexivity.
+      * destruct (H6 eq_refl) as [Ha|[Ha [g [-> Hg]]]].
+        -- apply Nat.leb_le in Ha. rewrite Ha. reflexivity.
+        -- rewrite Ha, Hg. apply orb_true_r.
+    + rewrite Forall_forall in *. intros c Hc. apply IH; auto.
+Qed.
+
+Lemma wf_rootb_spec root : wf_rootb root = true <-> WF_root root.
+Proof.
+  unfold wf_rootb, WF_root. rewrite !andb_true_iff, sorted_fbb_spec, forallb_forall, Forall_forall.
+  split.
+  - intros [[H1 H2] H3]. repeat split; auto.
+    + destruct (nroute root); [discriminate|reflexivity].
+    + intros c Hc. apply wf_nodeb_spec; auto.
+  - intros [H1 [H2 H3]]. rewrite H1. repeat split; auto.
+    intros c Hc. apply wf_nodeb_spec; auto.
+Qed.
+
+Lemma list_eqb_bytes_eq a b : list_eqb bytes_eqb a b = true <-> a = b.
+Proof.
+  revert b. induction a as [|x a IH]; intros [|y b]; simpl; try (split; congruence).
+  rewrite andb_true_iff, bytes_eqb_eq, IH. split; [intros [-> ->]; reflexivity|intros [= -> ->]; auto].
+Qed.
+
+Lemma existsb_bytes_In x l : existsb (bytes_eqb x) l = true <-> In x l.
+Proof.
+  rewrite existsb_exists. split.
+  - intros [y [Hy He]]. apply bytes_eqb_eq in He. subst. exact Hy.
+  - intros H. exists x. split; [exact H|apply bytes_eqb_refl].
+Qed.
+
+Lemma nodup_bytesb_spec l : nodup_bytesb l = true <-> NoDup l.
+Proof.
+  induction l as [|x r IH]; simpl.
+  - split; [constructor|reflexivity].
+  - rewrite andb_true_iff, negb_true_iff, IH. split.
+    + intros [H1 H2]. constructor; [|exact H2]. intros Hin. apply existsb_bytes_In in Hin. congruence.
+    + intros H. inversion H as [|? ? H1 H2]; subst. split; [|exact H2].
+      destruct (existsb (bytes_eqb x) r) eqn:E; [|reflexivity]. apply existsb_bytes_In in E. contradiction.
+Qed.
+
+Lemma wf_rootsb_spec rs : wf_rootsb rs = true <-> WF_roots rs.
+Proof.
+  unfold wf_rootsb, WF_roots.
+  rewrite !andb_true_iff, list_eqb_bytes_eq, nodup_bytesb_spec, !forallb_forall, !Forall_forall.
+  split.
+  - intros [[[H1 H2] H3] H4]. split; [exact H1|]. split; [|split; [exact H3|]].
+    + intros c Hc. apply is_nil_false. apply negb_true_iff. auto.
+    + intros c Hc. apply wf_rootb_spec. auto.
+  - intros [H1 [H2 [H3 H4]]]. split; [split; [split; [exact H1|]|exact H3]|].
+    + intros c Hc. apply negb_true_iff. apply is_nil_false. auto.
+    + intros c Hc. apply wf_rootb_spec. auto.
+Qed.
+
+Theorem wf_txnb_spec t : wf_txnb t = true <-> WF_txn t.
+Proof.
+  unfold wf_txnb, WF_txn. rewrite andb_true_iff, wf_rootsb_spec, Z.eqb_eq. reflexivity.
+Qed.
+
+(* "strictly increasing first bytes" is "sorted by key, pairwise distinct first bytes" *)
+Lemma bytes_ltb_fb a b : nkey a <> [] -> nkey b <> [] ->
+  (fb a < fb b <-> bytes_ltb (nkey a) (nkey b) = true /\ hd_byte (nkey a) <> hd_byte (nkey b)).
+Proof.
+  unfold fb. destruct (nkey a) as [|x ka]; [congruence|]. destruct (nkey b) as [|y kb]; [congruence|].
+  intros _ _. simpl.
+  destruct (Nat.ltb (nat_of_ascii x) (nat_of_ascii y)) eqn:E1.
+  - apply Nat.ltb_lt in E1. split; [|tauto]. intros _. split; [reflexivity|].
+    intros [= ->]. lia.
+  - apply Nat.ltb_ge in E1. destruct (Nat.ltb (nat_of_ascii y) (nat_of_ascii x)) eqn:E2.
+    + apply Nat.ltb_lt in E2. split; [lia|intros [? _]; discriminate].
+    + apply Nat.ltb_ge in E2. assert (x = y) as ->.
+      { rewrite <- (ascii_nat_embedding x), <- (ascii_nat_embedding y). f_equal. lia. }
+      split; [lia|intros [_ H]; congruence].
+Qed.
+
+Lemma sorted_fb_textual l : Forall (fun c => nkey c <> []) l ->
+  (sorted_fb l <->
+   StronglySorted (fun a b => bytes_ltb (nkey a) (nkey b) = true) l /\ NoDup (map (fun c => hd_byte (nkey c)) l)).
+Proof.
+  unfold sorted_fb. induction l as [|x r IH]; intros Hne.
+  - split; [intros _; split; constructor|intros _; constructor].
+  - inversion Hne as [|? ? Hx Hr]; subst. specialize (IH Hr). split.
+    + intros H. inversion H as [|? ? H1 H2]; subst. apply IH in H1. destruct H1 as [Ha Hb].
+      rewrite Forall_forall in H2, Hr. split.
+      * constructor; [exact Ha|]. apply Forall_forall. intros y Hy.
+        apply (bytes_ltb_fb x y); auto.
+      * simpl. constructor; [|exact Hb]. intros Hin. apply in_map_iff in Hin.
+        destruct Hin as [y [He Hy]]. apply (bytes_ltb_fb x y) in H2; auto. destruct H2; congruence.
+    + intros [Ha Hb]. inversion Ha as [|? ? H1 H2]; subst. simpl in Hb.
+      inversion Hb as [|? ? H3 H4]; subst. constructor; [apply IH; auto|].
+      rewrite Forall_forall in *. intros y Hy. apply (bytes_ltb_fb x y); auto. split; [auto|].
+      intros He. apply H3. rewrite He. apply (in_map (fun c => hd_byte (nkey c))). exact Hy.
+Qed.
+
+(* ---------- examples ---------- *)
+Definition mk_ri (p : bytes) (id : N) : rinfo :=
+  {| ri_route := {| rpat := p; rid := id |};
+     ri_pslen := count_wildcards (tokenize p);
+     ri_hostsplit := match index_byte p "/" with Some i => i | None => 0 end |}.
+
+Definition fill_ids (l : list (bytes * bytes * N)) : txn :=
+  fold_left (fun t e => let '(m, p, id) := e in
+               match insert t m (mk_ri p id) with ROk t' => t' | _ => t end) l empty_txn.
+
+Definition ex_txn1 : txn := Eval vm_compute in fill_ids
+  [(S2B "GET", S2B "/foo/bar", 1%N); (S2B "GET", S2B "/foo/{id}", 2%N); (S2B "GET", S2B "/foo/{id}/x", 3%N);
+   (S2B "GET", S2B "/fob", 4%N); (S2B "POST", S2B "/files/*{path}", 5%N);
+   (S2B "GET", S2B "a.com/x", 6%N); (S2B "GET", S2B "a.com.br/y", 7%N); (S2B "GET", S2B "{sub}.b.com/", 8%N);
+   (S2B "PURGE", S2B "/cache/*{key}/drop", 9%N); (S2B "GET", S2B "/foo/{name}", 10%N)].
+
+Example ex_txn1_wf : WF_txn ex_txn1.
+Proof. apply wf_txnb_spec. vm_compute. reflexivity. Qed.
+Example ex_txn1_size : t_size ex_txn1 = 9%Z.          (* the last insertion is a conflict and is refused *)
+Proof. reflexivity. Qed.
+Example empty_txn_wf : WF_txn empty_txn.
+Proof. apply wf_txnb_spec. vm_compute. reflexivity. Qed.
+
+Example valid_ex1 : valid_rinfo_full (mk_ri (S2B "{sub}.b.com/x/*{rest}/y") 1%N).
+Proof. repeat split. Qed.
+Example invalid_ex1 : valid_patternb (S2B "/a/{b}c") = false /\ valid_patternb (S2B "a.com") = false
+                      /\ valid_patternb (S2B "/a/*b") = false /\ valid_patternb (S2B "/a/{b") = false
+                      /\ valid_patternb (S2B "*{a}.com/") = false /\ valid_patternb (S2B "{a.b}.com/") = false.
+Proof. repeat split. Qed.
+
+(* malformed trees are rejected: an unmerged single-child inner node; a split wildcard;
+   unsorted children; a leaf whose pattern is not its path; a stale size *)
+Definition bad_root (ch : list node) : txn :=
+  {| t_roots := Node m_get None ch :: map empty_root [m_post; m_put; m_delete];
+     t_size := Z.of_nat (List.length (flat_map rlist ch)); t_maxparams := 0; t_depth := 0 |}.
+Definition lf (k p : string) : node := Node (S2B k) (Some {| rpat := S2B p; rid := 0 |}) [].
+
+Example bad_unmerged : wf_txnb (bad_root [Node (S2B "/a") None [lf "b" "/ab"]]) = false.
+Proof. reflexivity. Qed.
+Example bad_split_wildcard : wf_txnb (bad_root [Node (S2B "/{a") None [lf "b}" "/{ab}"; lf "c}" "/{ac}"]]) = false.
+Proof. reflexivity. Qed.
+Example bad_unsorted : wf_txnb (bad_root [Node (S2B "/") None [lf "b" "/b"; lf "a" "/a"]]) = false.
+Proof. reflexivity. Qed.
+Example bad_same_first_byte : wf_txnb (bad_root [Node (S2B "/") None [lf "ab" "/ab"; lf "ac" "/ac"]]) = false.
+Proof. reflexivity. Qed.
+Example bad_leaf_pattern : wf_txnb (bad_root [Node (S2B "/") None [lf "a" "/a"; lf "b" "/c"]]) = false.
+Proof. reflexivity. Qed.
+Example bad_host_straddle : wf_txnb (bad_root [lf "a.com/x" "a.com/x"]) = false.
+Proof. reflexivity. Qed.
+Example good_host_split : wf_txnb (bad_root [Node (S2B "a.com") None [lf "/x" "a.com/x"]]) = true.
+Proof. reflexivity. Qed.
+Example bad_size : wf_txnb {| t_roots := t_roots ex_txn1; t_size := 10; t_maxparams := 2; t_depth := 3 |} = false.
+Proof. reflexivity. Qed.
+Example bad_root_order : wf_txnb {| t_roots := map empty_root [m_post; m_get; m_put; m_delete];
+                                    t_size := 0; t_maxparams := 0; t_depth := 0 |} = false.
+Proof. reflexivity. Qed.
+Example bad_empty_custom_root : wf_txnb {| t_roots := map empty_root (common_verbs ++ [S2B "PURGE"]);
+                                           t_size := 0; t_maxparams := 0; t_depth := 0 |} = false.
+Proof. reflexivity. Qed.
